@@ -61,6 +61,25 @@ def main():
         payload = json.load(open(args.replay))
         driver = Driver()
         ctx = Ctx(prop, args.tier, seed, driver)
+        if payload.get("kind") == "gate-broken" or "failure" not in payload:
+            # the replay names a theorem or a correspondence case that no longer checked (no failing input was found): re-run
+            # the first disagreeing scenario on implementation and model; a theorem is re-checked by the proof gate
+            from harness import sessions as _ss
+            gate = ProofGate(prop, mod.MODULES, mod.THEOREMS, "quick").run()
+            still = not gate.ok if hasattr(gate, "ok") else False
+            for dg in (payload.get("correspondence_disagreements") or [])[:1]:
+                ops = (dg.get("scenario") or {}).get("ops")
+                if isinstance(ops, list):
+                    io = _ss.run_impl_sessions([ops])[0]
+                    mo = (_ss.run_model_sessions(driver, [ops]) or [None])[0]
+                    i = int(dg.get("op_index", 0))
+                    if mo is not None and i < len(io) and i < len(mo) and common.canon(io[i]) != common.canon(mo[i]):
+                        still = True
+            if still:
+                print(f"VIOLATION property={prop} replay={args.replay} no-failing-input-found")
+                return 1
+            print(f"replay passes: property={prop} {args.replay}")
+            return 0
         still = mod.replay(ctx, payload)
         if still:
             print(f"VIOLATION property={prop} replay={args.replay}")
